@@ -7,6 +7,7 @@ from .state import *  # noqa
 from .values import *  # noqa
 
 EXPAND_LIMIT = 48
+UFUNS = {}
 PYDIV = z3.Function("pydiv", INT, INT, INT)
 PYMOD = z3.Function("pymod", INT, INT, INT)
 
@@ -30,6 +31,7 @@ class Evaluator:
         self.cur_tags = set()
         self.macros = contracts.macros if contracts else {}
         self.sum_funcs = {}
+        self.ufuns = UFUNS  # uninterpreted specification functions are global (same symbol in every contract)
         self.axioms = []  # global facts (division, sum unfoldings), valid in every state
         self._div_axiom = False
         self.unroll = False  # unroll mode: concrete arities, loops unrolled
@@ -243,6 +245,8 @@ class Evaluator:
     def to_aexpr(self, st, v):
         if isinstance(v, AExpr):
             return v
+        if isinstance(v, SpecArr):
+            return AExpr(v.shape, lambda ix, t=v.term: z3.Select(t, *[zint(i) for i in ix]), v.dtype)
         if isinstance(v, Arr):
             term = self.term(st, v.obj)
             arr = v
@@ -252,6 +256,17 @@ class Evaluator:
 
             return AExpr(arr.shape, fn, arr.dtype)
         raise Unsupported(f"not an array: {type(v).__name__}")
+
+    def z3_array(self, st, v):
+        """any array value -> a z3 array term (exactly the underlying term when there is one)"""
+        if isinstance(v, SpecArr):
+            return v.term
+        if isinstance(v, Arr) and v.is_whole():
+            return st.heap[v.obj.id]
+        ae = self.to_aexpr(st, v)
+        ks = [z3.Int(fresh_name("u")) for _ in range(ae.ndim)]
+        body = ae.fn(ks)
+        return z3.Lambda(ks, zbool(body) if ae.dtype == "bool" else zint(body))
 
     def materialize(self, st, ae, name="tmp"):
         if isinstance(ae, Arr):
@@ -634,6 +649,11 @@ class Evaluator:
         idx = self.eval(node.slice, st)
         idxs = list(idx) if isinstance(idx, tuple) else [idx]
         what = ast.unparse(node.value) if not st.spec else "spec"
+        if isinstance(base, SpecArr):
+            if len(idxs) != base.ndim:
+                base = self.to_aexpr(st, base)
+            else:
+                return z3.Select(base.term, *[zint(as_int(i)) for i in idxs])
         if isinstance(base, (Arr, AExpr)):
             if len(idxs) == 1 and isinstance(idxs[0], AExpr) and idxs[0].dtype == "bool":
                 return self.mask_filter(st, base, idxs[0])
